@@ -15,7 +15,10 @@ RULE = ("for each representation -- state vector, density matrix (mixed), MPS (r
         "(Occupation, CorrelationMatrix, Energy, EnergySecondMoment, EnergyVariance, Fidelity, Expectation, StateResult, "
         "EntanglementEntropy for MPS) so that the backend's own patched implementations are the ones called, and "
         "obs.apply(config, state, hamiltonian) is compared with the numpy definition on the dense normalised state and "
-        "the dense Hamiltonian built from generated omega/delta/phi/U (2-8 atoms); range clauses: occupation and "
+        "the dense Hamiltonian built from generated omega/delta/phi/U (2-8 atoms); one case in six is a real emu-mps run "
+        "(2-4 atoms; Lindblad noise so that the solver's state is un-normalised at evaluation times; state-preparation "
+        "errors with a harness-chosen mask so that it is padded) whose reported values are compared with the definitions "
+        "on the solver's own state captured at fill_results, normalised and padded by the harness; range clauses: occupation and "
         "correlation in [0,1], variance >= 0, entropy in [0, min(k, N-k) log d]; non-trivial = entangled state (not a "
         "product) with non-zero drive and interaction; distinct = case hash")
 ASSUMPTIONS = ["the backends normalise the state before calling observables (emu-mps: 1/norm * state); the harness does the same",
@@ -31,8 +34,28 @@ def _real(maxv=15.0):
 
 
 @st.composite
+def _run_cases(draw):
+    """an actual emu-mps run (MPSBackendImpl.fill_results is what normalises, pads and calls the observables): Lindblad
+    noise makes the internal state un-normalised at evaluation times, state-preparation errors make it padded"""
+    n = draw(st.integers(2, 4))
+    masks = [None, [False] * n]
+    if n >= 3:
+        masks += [[i == k for i in range(n)] for k in range(n)]
+    if n == 4:
+        masks += [[True, False, False, True], [False, True, True, False], [True, True, False, False]]
+    return {"rep": "mps_run", "n": n, "dim": 2, "mask": draw(st.sampled_from(masks)),
+            "noise": draw(st.sampled_from([None, "relaxation", "relaxation", "dephasing", "depolarizing"])),
+            "rate": draw(st.sampled_from([1.0, 4.0, 10.0])), "T": draw(st.sampled_from([40, 100, 200])),
+            "amp": draw(st.sampled_from([0.0, 3.0, 8.0])), "det": draw(st.sampled_from([-4.0, 0.0, 6.0])),
+            "spacing": draw(st.sampled_from([6.0, 8.0])), "init_r": draw(st.booleans()),
+            "evals": draw(st.sampled_from([[1.0], [0.5, 1.0], [0.0, 0.3, 1.0]])), "seed": draw(st.integers(0, 2**20))}
+
+
+@st.composite
 def _cases(draw):
-    rep = draw(st.sampled_from(["sv", "dm", "mps", "mps", "mps_dark"]))
+    rep = draw(st.sampled_from(["sv", "dm", "mps", "mps", "mps_dark", "mps_run"]))
+    if rep == "mps_run":
+        return draw(_run_cases())
     dim = 2
     if rep in ("mps", "mps_dark") and draw(st.integers(0, 2)) == 0:
         dim = 3
@@ -71,6 +94,8 @@ def check_case(case) -> Result:
     from pbt.oracles import dense, tn
 
     r = Result()
+    if case["rep"] == "mps_run":
+        return _check_run(case, r)
     rep, n, d = case["rep"], case["n"], case["dim"]
     rng = np.random.default_rng(case["seed"])
     om, de, ph = np.array(case["omega"]), np.array(case["delta"]), np.array(case["phi"])
@@ -285,4 +310,124 @@ def check_case(case) -> Result:
             r.fail(f"negative_variance:{rep}", f"{g!r} (|H|^2 = {normHf**2:.3g})")
         if dark_pos and tag == "occupation" and np.abs(g[dark_pos]).max() > 1e-12:
             r.fail("dark_atom_occupied", str(g.tolist()))
+    return r
+
+
+def _check_run(case, r):
+    """backend level: observables reported by a real emu-mps run equal the definitions on the solver's own state at that
+    time, normalised and padded with the dark atoms (captured at fill_results; no source hook)"""
+    import contextlib
+    import io
+    import warnings
+
+    import numpy as np
+    import pulser.backend as pb
+    from pulser import NoiseModel
+
+    import emu_mps
+    import emu_mps.mps_backend_impl as impl_mod
+    from pbt import build, common
+    from pbt.oracles import dense, tn
+
+    n, mask = case["n"], case["mask"]
+    ids = [f"a{i}" for i in range(n)]
+    seqc = {"reg": {"ids": ids, "coords": [[case["spacing"] * i, 0.0] for i in range(n)]}, "basis": "rydberg", "device": "mock",
+            "local": None, "dmm": None, "slm": None,
+            "ops": [{"t": "pulse", "ch": "g", "amp": {"k": "const", "d": case["T"], "v": case["amp"]},
+                     "det": {"k": "const", "d": case["T"], "v": case["det"]}, "phase": 0.0}]}
+    seq = build.sequence(seqc)
+    ev = case["evals"]
+    r.label("mps_run", f"n{n}", "noise:" + str(case["noise"]), "no_state_prep" if mask is None else ("dark_atoms" if any(mask) else "filter_without_dark_atoms"))
+    nmk = {}
+    if case["noise"]:
+        nmk[case["noise"] + "_rate"] = case["rate"]
+    if mask is not None:
+        nmk.update(state_prep_error=0.5, runs=1, samples_per_run=1)
+    good = [i for i in range(n) if not (mask and mask[i])]
+    fid_state = emu_mps.MPS.from_state_amplitudes(eigenstates=("r", "g"), amplitudes={"r" * n: 1.0, "g" * n: 1.0})
+    obs = [pb.Occupation(evaluation_times=ev), pb.CorrelationMatrix(evaluation_times=ev), pb.Energy(evaluation_times=ev),
+           pb.EnergySecondMoment(evaluation_times=ev), pb.EnergyVariance(evaluation_times=ev), pb.StateResult(evaluation_times=ev),
+           pb.Fidelity(fid_state, evaluation_times=ev)]
+    kw = dict(dt=10, observables=obs, precision=1e-8, optimize_qubit_ordering=False, n_trajectories=1)
+    if nmk:
+        kw["noise_model"] = NoiseModel(**nmk)
+    if case["init_r"] and mask is None:
+        kw["initial_state"] = emu_mps.MPS.from_state_amplitudes(eigenstates=("r", "g"), amplitudes={"r" * n: 1.0, "g" + "r" * (n - 1): 0.5})
+    with warnings.catch_warnings():
+        warnings.simplefilter("ignore")
+        cfg = cut(e2e.mps_config, **kw)
+    captured = {}
+    orig_fill = impl_mod.MPSBackendImpl.fill_results
+
+    def fill(self):
+        t = self.current_time / self.target_times[-1]
+        flt = self.well_prepared_qubits_filter
+        captured[round(float(t), 9)] = (tn.mps_to_dense(self.state.factors), tn.mpo_to_dense(self.hamiltonian.factors),
+                                        None if flt is None else [bool(b) for b in flt])
+        return orig_fill(self)
+
+    impl_mod.MPSBackendImpl.fill_results = fill
+    e2e.seed_all(case["seed"])
+    try:
+        with contextlib.redirect_stdout(io.StringIO()):
+            if mask is not None:
+                with e2e.forced_bad_atoms(mask) as fb:
+                    res = cut(emu_mps.MPSBackend(seq, config=cfg).run)
+                if fb.hits != 1:
+                    raise common.HarnessError(f"bad-atom draw intercepted {fb.hits} times")
+            else:
+                res = cut(emu_mps.MPSBackend(seq, config=cfg).run)
+    finally:
+        impl_mod.MPSBackendImpl.fill_results = orig_fill
+    nop = dense.n_op(2)
+    fid_vec = np.zeros(2**n, dtype=complex)
+    fid_vec[0] = fid_vec[-1] = 1 / np.sqrt(2)  # emu order: g = 0, r = 1; first atom most significant
+    off_norm = 0.0
+    for j, t_rel in enumerate(res.get_result_times("occupation")):
+        key = round(float(t_rel), 9)
+        if key not in captured:
+            raise common.HarnessError(f"no captured state at {t_rel}: {sorted(captured)}")
+        raw, Hred, flt = captured[key]
+        if (flt is None) != (mask is None) or (flt is not None and flt != [not b for b in mask]):
+            raise common.HarnessError(f"filter {flt} does not match the forced mask {mask}")
+        nrm = np.linalg.norm(raw)
+        off_norm = max(off_norm, abs(nrm - 1))
+        psi = raw / nrm
+        k = len(good)
+        full = np.zeros([2] * n, dtype=complex)
+        full[tuple(slice(None) if i in good else 0 for i in range(n))] = psi.reshape([2] * k)
+        full = full.reshape(-1)
+        Hsc = max(1.0, float(np.linalg.norm(Hred, 2)))
+        nops = [dense.site_op(nop, i, n, 2) for i in range(n)]
+        want = {"occupation": np.array([np.vdot(full, nops[i] @ full).real for i in range(n)]),
+                "correlation_matrix": np.array([[np.vdot(full, nops[i] @ (nops[jj] @ full)).real for jj in range(n)] for i in range(n)]),
+                "energy": np.vdot(psi, Hred @ psi).real, "energy_second_moment": np.vdot(psi, Hred @ (Hred @ psi)).real,
+                "fidelity": abs(np.vdot(fid_vec, full)) ** 2}
+        want["energy_variance"] = want["energy_second_moment"] - want["energy"] ** 2
+        scales = {"occupation": 1.0, "correlation_matrix": 1.0, "energy": Hsc, "energy_second_moment": Hsc**2, "energy_variance": Hsc**2, "fidelity": 1.0}
+        h2_abs = np.sqrt(max(n - 1, 1)) * 1e-5 + 1e-7 * float(np.linalg.norm(Hred @ Hred))
+        where = f"t={float(t_rel):.3f}, |internal state|={nrm:.6f}, mask={mask}, noise={case['noise']}@{case['rate']}"
+        for tag, w in want.items():
+            g = e2e.to_np(getattr(res, tag)[j])
+            w = np.asarray(w)
+            if g.shape != w.shape:
+                r.fail(f"shape:{tag}:mps_run", f"{g.shape} vs {w.shape}; {where}")
+                continue
+            extra = h2_abs if tag in ("energy_second_moment", "energy_variance") else 0.0
+            err = float(np.abs(g - w).max())
+            if not err <= 1e-8 * scales[tag] + extra:
+                r.fail(f"differs_from_definition:{tag}:mps_run", f"max diff {err:.3e} > {1e-8 * scales[tag] + extra:.3e}; got "
+                       f"{np.round(g, 6).tolist() if g.size < 10 else '...'} want {np.round(w, 6).tolist() if w.size < 10 else '...'}; {where}")
+            if tag in ("occupation", "correlation_matrix", "fidelity") and (np.any(g < -1e-9) or np.any(g > 1 + 1e-9)):
+                r.fail(f"out_of_range:{tag}:mps_run", str(np.round(g, 6).tolist())[:300] + "; " + where)
+            if tag == "energy_variance" and g < -(1e-9 * Hsc**2 + extra):
+                r.fail("negative_variance:mps_run", f"{g!r}; {where}")
+        st_dense = tn.mps_to_dense(res.state[j].factors)
+        if abs(np.linalg.norm(st_dense) - 1) > 1e-8:
+            r.fail("state_result_not_normalised:mps_run", f"|StateResult| = {np.linalg.norm(st_dense)!r}; {where}")
+        elif np.abs(st_dense - full).max() > 1e-8:
+            r.fail("state_result_differs:mps_run", f"max diff {np.abs(st_dense - full).max():.3e}; {where}")
+    if off_norm > 1e-3:
+        r.label("internal_state_unnormalised")
+    r.nontrivial = off_norm > 1e-3 or (mask is not None and any(mask))
     return r
